@@ -19,6 +19,7 @@ namespace tmat = tfel::material;
 using SSD = tmat::SlipSystemsDescription;
 using CS = tmat::CrystalStructure;
 static vf::Reporter R;
+static long g_asym[4] = {0, 0, 0, 0}, g_pairs[4] = {0, 0, 0, 0};
 
 template <size_t N> using IV = std::array<int, N>;
 template <size_t N> struct Sys { IV<N> b, n; bool operator<(const Sys& o) const { return std::tie(b, n) < std::tie(o.b, o.n); } bool operator==(const Sys& o) const { return b == o.b && n == o.n; } };
@@ -113,7 +114,15 @@ static void family_case(const vf::Args& a, CS cs, uint64_t idx, uint64_t fidx) {
   if (g.coin()) for (auto& x : rep.n) x = -x;
   const int maxidx = std::max(*std::max_element(rep.b.begin(), rep.b.end(), [](int x, int y) { return std::abs(x) < std::abs(y); }),
                               *std::max_element(rep.n.begin(), rep.n.end(), [](int x, int y) { return std::abs(x) < std::abs(y); }));
-  char S[32]; std::snprintf(S, sizeof S, "max-index-%d", std::abs(maxidx));
+  // hexagonal families that are only complete with the rotations of 60/180 degrees about c (sign change
+  // of the first three indices not equivalent to a permutation) are filed under their own stratum
+  bool needs6 = false;
+  if constexpr (N == 4) {
+    std::set<Sys<4>> sub;
+    for (const auto& o : hex_ops()) if (o[3] == 1) sub.insert(canon<4>({act(o, rep.b), act(o, rep.n)}));
+    needs6 = sub.size() < orb.size();
+  }
+  char S[64]; std::snprintf(S, sizeof S, "max-index-%d%s", std::abs(maxidx), needs6 ? "/needs-rotation-about-c" : "");
   char api[128];
   auto nm = [&](const char* f) { std::snprintf(api, sizeof api, "%s:%s", cs_name(cs), f); vf::set_case(api, S, idx); return api; };
   const uint64_t h = vf::hash_bytes(&rep, sizeof rep);
@@ -176,7 +185,7 @@ static void family_case(const vf::Args& a, CS cs, uint64_t idx, uint64_t fidx) {
       R.check(nm("Schmid factor=(d.n)(d.m)"), S, idx, h, e_def, tg * 4, dump2);
     }
     // ---- structure of the interaction matrix (quadratic in the family size: families up to 24 systems)
-    if (lib.size() <= 24 && (a.thorough || idx % 4 == 0)) {
+    if (lib.size() <= 24 && (a.thorough || (idx / 4) % 4 == 0)) {
       const auto ims = ssd.getInteractionMatrixStructure();
       const auto& cont = ims.getSlidingSystemsInteraction();
       R.expect(nm("interaction:rank()=number of classes"), S, idx, h, ims.rank() == cont.size(), dump);
@@ -212,8 +221,7 @@ static void family_case(const vf::Args& a, CS cs, uint64_t idx, uint64_t fidx) {
         if constexpr (N == 3) check_ops(cubic_ops()); else check_ops(hex_ops());
         R.expect(nm("interaction:rank invariant under the point group"), S, idx, h, inv, dump);
         for (size_t i = 0; i < lib.size(); ++i) for (size_t j = i + 1; j < lib.size(); ++j) asym += rk.at({lib[i], lib[j]}) != rk.at({lib[j], lib[i]});
-        std::printf("@@VF {\"ev\":\"note\",\"what\":\"%s:pairs with rank(g1,g2)!=rank(g2,g1)\",\"n\":%ld}\n", cs_name(cs), asym);
-        std::printf("@@VF {\"ev\":\"note\",\"what\":\"%s:unordered pairs examined\",\"n\":%ld}\n", cs_name(cs), long(lib.size() * (lib.size() - 1) / 2));
+        g_asym[int(cs)] += asym; g_pairs[int(cs)] += long(lib.size() * (lib.size() - 1) / 2);
       }
     }
     // ---- a family already generated by another one is refused
@@ -273,6 +281,10 @@ int main(int argc, char** argv) {
       default: family_case<4>(a, CS::HCP, idx, f);
     }
     if (a.only >= 0) break;
+  }
+  for (int c = 0; c < 4; ++c) if (g_pairs[c]) {
+    std::printf("@@VF {\"ev\":\"note\",\"what\":\"%s:unordered pairs with rank(g1,g2)!=rank(g2,g1)\",\"n\":%ld}\n", cs_name(CS(c)), g_asym[c]);
+    std::printf("@@VF {\"ev\":\"note\",\"what\":\"%s:unordered pairs examined\",\"n\":%ld}\n", cs_name(CS(c)), g_pairs[c]);
   }
   R.finish();
   return 0;
